@@ -230,24 +230,24 @@ def obligations(tier, build):
     for expr in EXPRS:
         first = EXPRS[expr][0][0]
         if first == "child":
-            muts = ["child=", "child=None", "cycle", "grandchild=", "read_default", "append", "insert_dup", "del"]
+            muts = ["child=", "child=None", "cycle", "grandchild=", "read_default", "append", "insert_dup", "del", "del_child"]
         elif first == "children":
             muts = ["append", "insert", "del", "setitem", "insert_dup", "imul", "clear", "child=", "read_default",
-                    "slice_subset", "remove_first"]
+                    "slice_subset", "remove_first", "del_children"]
         elif first == "mapping":
-            muts = ["map_set", "map_del", "map_same", "append", "child=", "read_default"]
+            muts = ["map_set", "map_del", "map_same", "append", "child=", "read_default", "del_mapping"]
         elif first == "anybox":
             muts = ["anybox=good", "anybox=broken", "anybox=None", "box_append", "box_append_alien", "read_default"]
         elif first == "anykids":
             muts = ["anykids_good", "anykids_mixed", "read_default", "child="]
         elif first == "tkids":
-            muts = ["tkids=equal", "tkids_append", "stale_append", "read_default", "child="]
+            muts = ["tkids=equal", "tkids_append", "stale_append", "read_default", "child=", "del_tkids"]
         elif first == "tchild":
             muts = ["tchild=", "read_default", "child="]
         elif first == "dchild":
             muts = ["read_default", "dchild=", "dchild=shared", "del_dchild", "child="]
         else:
-            muts = ["set_add", "set_remove", "append", "child=None", "read_default"]
+            muts = ["set_add", "set_remove", "append", "child=None", "read_default", "del_group"]
         if expr == "children:items:value":
             muts = muts + ["children=equal", "children_append", "stale_append"]
         obs.append(Obligation("track/%s/k=%d" % (expr, K), harness_factory(expr, K, muts), env=G.env, stubs=STUBS,
